@@ -49,6 +49,47 @@ def extra(report, env):
         ok = (r['error'] == want) if isinstance(want, str) and want.startswith('#') else r['result'] == want and type(r['result']) is type(want)
         if not ok and len(fails) < 5:
             fails.append({'formula': text, 'detail': 'expected %r got %r' % (want, r)})
+    # SWITCH / IFS: the FIRST matching case decides - seeded case lists with duplicates, cases of mixed types, with and without default
+    import random
+    rng = random.Random(env['seed'])
+    vals = [0, 1, 2, 1.0, 2.5, '"a"', '"b"', '"A"', '""']      # (logicals against numbers are left out: the statement does not say whether TRUE equals 1)
+    pyv = {'0': 0, '1': 1, '2': 2, '1.0': 1.0, '2.5': 2.5, '"a"': 'a', '"b"': 'b', '"A"': 'A', '""': ''}
+    for _ in range(400 if env['tier'] == 'quick' else 6000):
+        k = rng.randint(1, 5)
+        pairs = [(str(rng.choice(vals)), 'r%d' % i) for i in range(k)]
+        target = str(rng.choice(vals))
+        default = rng.random() < 0.5
+        text = 'SWITCH(%s,%s%s)' % (target, ','.join('%s,"%s"' % pr for pr in pairs), ',"dflt"' if default else '')
+        want = None
+        for c, res in pairs:
+            a, b = pyv[target], pyv[c]
+            # equal = same value; a logical is not a number, text only equals text (the comparison SWITCH itself uses is the language's ==)
+            if type(a) is bool or type(b) is bool:
+                eq = type(a) is type(b) and a == b
+            elif isinstance(a, str) or isinstance(b, str):
+                eq = isinstance(a, str) and isinstance(b, str) and a == b
+            else:
+                eq = a == b
+            if eq:
+                want = res
+                break
+        if want is None:
+            want = 'dflt' if default else '#N/A'
+        cases += 1
+        r = p.parse(text)
+        ok = (r['error'] == want) if want == '#N/A' else (r['result'] == want)
+        if not ok and len(fails) < 5:
+            fails.append({'formula': text, 'detail': 'the first case equal to the target decides (else the default, else #N/A): expected %r got %r' % (want, r)})
+        conds = [rng.choice(['TRUE', 'FALSE', '0', '1', '2.5', 'blankv']) for _ in range(k)]
+        text = 'IFS(%s)' % ','.join('%s,"r%d"' % (c, i) for i, c in enumerate(conds))
+        truth = {'TRUE': True, 'FALSE': False, '0': False, '1': True, '2.5': True, 'blankv': False}
+        want = next(('r%d' % i for i, c in enumerate(conds) if truth[c]), '#N/A')
+        p.set_variable('blankv', None)
+        cases += 1
+        r = p.parse(text)
+        ok = (r['error'] == want) if want == '#N/A' else (r['result'] == want)
+        if not ok and len(fails) < 5:
+            fails.append({'formula': text, 'detail': 'the value paired with the first true condition, else #N/A: expected %r got %r' % (want, r)})
     from hotxlfp.formulas import error
     for code in ('1/0', 'NA()', 'SQRT(-1)'):
         for text in ('AND(TRUE,%s)', 'OR(FALSE,%s)', 'XOR(%s,1)', 'NOT(%s)', 'IF(%s,1,2)', 'IFS(%s,1,TRUE,2)', 'AND({1,1},%s)'):
@@ -63,7 +104,7 @@ def extra(report, env):
         if (bool(e['result']) == bool(o['result']) or bool(o['result']) != (int(v) % 2 == 1)) and len(fails) < 5:
             fails.append({'formula': 'ISEVEN/ISODD(%r)' % v, 'detail': 'not complementary / not the parity of the integer part: %r %r' % (e, o)})
     bounded(report, 'C12.truth-tables', 'seeded tuples of length 1..6 from {TRUE,FALSE,0,1,-2,0.5,blank} regrouped into nested arrays (depth <= 3) for '
-            'AND/OR/XOR, 2-D literals, IF/IFS/SWITCH/NOT spot checks, 3 error sources x 7 condition positions, ISEVEN/ISODD on 12 numbers', cases, fails)
+            'AND/OR/XOR, 2-D literals, IF/IFS/SWITCH/NOT spot checks, seeded SWITCH / IFS case lists with duplicates and mixed types (first match decides), 3 error sources x 7 condition positions, ISEVEN/ISODD on 12 numbers', cases, fails)
 
 
 def replay(rp):
